@@ -50,6 +50,8 @@ def run(ctx, model_ok):
     corpus = lib.os.path.join(lib.VERIF, "corpus", "C07.json")
     if lib.os.path.exists(corpus):
         cases += json.load(open(corpus))
+    # the histories of repaired defects (known_findings.json, kind fixed) run first
+    cases += [dict(rp) for rp in getattr(ctx, "fixed_replays", []) if "items" in rp and "cfg" in rp]
     while len(cases) < n:
         cases.append(cc.gen_case(rng, sys_level=True, imports=True))
     impl = cc.impl_results(cases)
